@@ -275,6 +275,7 @@ pub struct World<'a> {
     pub c18_done: bool,
     pub oversize_done: bool,
     pub c18_busy: bool,
+    pub c18_pub_delay: Option<u64>,
     pub c18_gap: bool,
     pub c18_gap_taken_for: Option<u64>,
     /// Keep-alive in force on the current connection (CONNECT value, or the
@@ -1573,6 +1574,11 @@ impl<'a> World<'a> {
             if let Some(t) = self.c18_gap_due() {
                 upd(t);
             }
+            if let (true, Some(t), Some(d)) = (self.silent && self.user_left > 0, self.silent_t, self.c18_pub_delay) {
+                if now < t + d {
+                    upd(t + d);
+                }
+            }
         }
         best
     }
@@ -2149,6 +2155,7 @@ impl<'a> World<'a> {
             c18_done: false,
             oversize_done: false,
             c18_busy: false,
+            c18_pub_delay: None,
             c18_gap: false,
             c18_gap_taken_for: None,
             k_eff_ms: None,
